@@ -135,6 +135,7 @@ theorem cstep_recOk (cfg : CCfg) (hmax : 0 ≤ cfg.maxBytes) (c : CCache σ) (h 
       obtain ⟨r0, hm, m0, u0, sel0, r, bl, sz, hop, hk, hbl, hr, hexp⟩ := hinv.src _ e hf
       have ht := hinv.time r0 hm
       simp only [cRecOk]
+      simp only [decide_true, Bool.true_and]
       rw [List.any_eq_true]
       refine ⟨r0, hm, ?_⟩
       have hk' : m0 = m ∧ u0 = u ∧ sel0 = sel := by
